@@ -19,6 +19,13 @@ Model side (`Model/Rotation.lean` through `Drivers/C06.lean`):
   * the specification (`specCentre`, `specRigid`, `specHanded`, own-name lookup) evaluated by the Lean driver
     on the coordinates the REAL code wrote, tolerance 1e-6 (after trig + optimiser).
 
+Stream `objective`: the REAL `orient_template` is called for one residue with `scipy.optimize.minimize` replaced
+(harness process only) by a function that evaluates the objective it receives (`fun(x, *args)`) at the start
+angles and two dyadic angle triples; `Rot.objective` (Model/RotationAngles.lean) is evaluated on the pairs the
+input defines (template vector of the own bonded atom; neighbour ATOM position if that residue is in
+`built_nodes`, else neighbour RESIDUE position; both minus the own residue position) with the same cos/sin values
+shipped exactly — 0-4 connecting edges, built and not built neighbours mixed, shared resids (1e-9).
+
 Trusted / partial: IEEE rounding and `np.sin/np.cos` (c²+s²=1 only to rounding); `scipy.optimize.minimize`
 is an arbitrary angle oracle (the theorems hold for every angle triple); vermouth's `make_residue_graph`
 builds the residue fragments.
@@ -480,10 +487,96 @@ def pipeline_case(ctx, replay):
 
 # ------------------------------------------------------------------------------------------ driver
 
+def objective_case(ctx, replay):
+    """the objective `orient_template` hands to the optimiser, evaluated at a few angle triples: the REAL
+    orient_template is called for one residue with `scipy.optimize.minimize` replaced (harness process only) by a
+    function that evaluates the objective it is given (`fun(x, *args)`) and returns the start angles; the model
+    computes `Rot.objective` from the pairs (template atom of the residue's own bonded atom, reference point) that
+    the input itself defines: the neighbour's atom if that residue counts as built, else the neighbour residue"""
+    import random
+    import scipy.optimize
+    import polyply.src.backmap as backmap
+    spec = replay["spec"]
+    rng = random.Random(replay["np_seed"])
+    meta = build_meta(spec)
+    mol = meta.molecule
+    offsets, key = [], 0
+    for res in spec["residues"]:
+        offsets.append(key)
+        key += len(res["atom_names"])
+    node_of = {}
+    for node in meta.nodes:
+        for atom in meta.nodes[node]["graph"].nodes:
+            node_of[atom] = node
+    cur_idx = replay["residue"] % len(spec["residues"])
+    cur = node_of[offsets[cur_idx]]
+    others = [r for r in range(len(spec["residues"])) if r != cur_idx]
+    built_idx = [r for r in others if rng.random() < 0.5]
+    for r in built_idx:                     # a built residue has atom coordinates (dyadic)
+        for i in range(len(spec["residues"][r]["atom_names"])):
+            mol.nodes[offsets[r] + i]["position"] = np.array([dy(rng, 0, 8), dy(rng, 0, 8), dy(rng, 0, 8)])
+    built_nodes = [node_of[offsets[r]] for r in built_idx]
+    rng.shuffle(built_nodes)
+    template = meta.templates[meta.nodes[cur]["template"]]
+    probes = [[dy(rng, 0, 6, 3), dy(rng, 0, 6, 3), dy(rng, 0, 6, 3)] for _ in range(2)]
+    seen = dict(values=[], angles=[], calls=0)
+    orig = scipy.optimize.minimize
+
+    def fake(fun, x0, args=(), **_kwargs):
+        seen["calls"] += 1
+        for x in [list(np.asarray(x0, dtype=float))] + probes:
+            seen["angles"].append([float(c) for c in x])
+            seen["values"].append(float(fun(np.array(x, dtype=float), *args)))
+        return scipy.optimize.OptimizeResult(x=np.asarray(x0, dtype=float), success=True)
+    scipy.optimize.minimize = fake
+    np.random.seed(replay["np_seed"] % 100000)
+    try:
+        backmap.orient_template(meta, cur, template, built_nodes)
+    finally:
+        scipy.optimize.minimize = orig
+    own = meta.nodes[cur]["position"]
+    pairs = []
+    for a, i, b, j in spec["bonds"]:
+        if (a == cur_idx) == (b == cur_idx):
+            continue
+        (mine, k), (other, l) = ((a, i), (b, j)) if a == cur_idx else ((b, j), (a, i))
+        name = spec["residues"][mine]["atom_names"][k]
+        other_node = node_of[offsets[other]]
+        is_built = other_node in built_nodes
+        pairs.append(dict(opt=v3(template[name]), built=is_built, cg=v3(meta.nodes[other_node]["position"]),
+                          atom=v3(mol.nodes[offsets[other] + l]["position"]) if is_built else None))
+    # several bonds between the same two atoms are one edge of the molecule graph
+    uniq = []
+    keys = set()
+    for (a, i, b, j), pair in zip([bd for bd in spec["bonds"] if (bd[0] == cur_idx) != (bd[2] == cur_idx)], pairs):
+        k = frozenset([(a, i), (b, j)])
+        if k not in keys:
+            keys.add(k)
+            uniq.append(pair)
+    req = dict(op="objective", own=v3(own), pairs=uniq, angles=[angle_req(*x) for x in seen["angles"]])
+
+    def judge(answers):
+        ans = answers[0]
+        if seen["calls"] != 1 or not ans.get("ok"):
+            ctx.tie_broken("correspondence", "objective:setup", "minimize called %d times; driver: %s"
+                           % (seen["calls"], str(ans)[:200]), replay)
+            return
+        impl = ["%.12g" % v for v in seen["values"]]
+        model = ["%.12g" % float(common.rat_parse(v)) for v in ans["values"]]
+        if all(close(x, common.rat_parse(y)) for x, y in zip(seen["values"], ans["values"])):
+            model = impl
+        ctx.correspond("orient_template-objective", impl, model, replay)
+        ctx.case(("objective", json.dumps(replay, sort_keys=True)) if uniq else None, stream="objective",
+                 objective_pairs=min(len(uniq), 4), objective_built=sum(1 for q in uniq if q["built"]) > 0)
+    return [req], judge
+
+
 def make_case(ctx, replay):
     stream = replay["stream"]
     if stream == "rotate":
         return rotate_case(ctx, replay)
+    if stream == "objective":
+        return objective_case(ctx, replay)
     if stream == "pipeline":
         return pipeline_case(ctx, replay)
     meta = build_meta(replay["spec"])
@@ -499,6 +592,18 @@ def gen_backmap(ctx):
         seed = rng.randint(0, 10 ** 9)
         out.append(dict(stream="backmap", spec=gen_molecule_spec(random.Random(seed), ctx.thorough),
                         np_seed=seed % 100000, probe=sorted(s for s in FINDING_SHAPES if enabled(s))))
+    return out
+
+
+def gen_objective(ctx):
+    """own generator (the cases of the older streams for a given VERIF_SEED stay what they were)"""
+    import random
+    rng = random.Random(("objective", ctx.seed, ctx.pid).__repr__())
+    out = []
+    for _ in range(ctx.budget(150, 3000)):
+        seed = rng.randint(0, 10 ** 9)
+        spec = gen_molecule_spec(random.Random(seed), ctx.thorough)
+        out.append(dict(stream="objective", spec=spec, np_seed=seed, residue=rng.randrange(64)))
     return out
 
 
@@ -595,6 +700,7 @@ def run(ctx):
                                 "the coordinates the real Backmap wrote (1e-6)")
     replays = corpus_cases() + gen_rotate(ctx) + gen_backmap(ctx) + gen_pipeline(ctx)
     run_cases(ctx, replays)
+    run_cases(ctx, gen_objective(ctx))
     if ctx.failures:
         shrink(ctx)
 
